@@ -399,9 +399,9 @@ def emit_op(op, ob):
 
 def emit_obs(op, ob):
     code = 0 if op["k"] == "edit" else ob["out"]
-    reg = clist([ctuple([cstr(n), cnat(t) if t >= 0 else cnat(4999)]) for n, t in ob["reg"]])
+    reg = clist([ctuple([cstr(n), cnat(t) if t >= 0 else cnat(99)]) for n, t in ob["reg"]])
     names = clist([cstr(n) for n in ob["names"]])
-    cur = copt(None if ob["cur"] is None else (cnat(ob["cur"]) if ob["cur"] >= 0 else cnat(4999)))
+    cur = copt(None if ob["cur"] is None else (cnat(ob["cur"]) if ob["cur"] >= 0 else cnat(99)))
     return ctuple([cnat(code), reg, names, cur])
 
 
@@ -654,7 +654,21 @@ def run(tier, seed, rng):
             cases[j] = shift_case(c, shift)
     res = run_cases(cases)
     terms, idx = [], []
+    PROBE = ("import modelx as mx\nm = mx.new_model(); assert m.name.startswith('Model'), m.name; m.close()\n"
+             "a = mx.new_model('Zq'); b = mx.new_model('Zq')\nprint(a.name, b.name, list(mx.get_models()))\n"
+             "assert a.name.startswith('Zq_BAK') and mx.get_models()[a.name] is a and mx.get_models()['Zq'] is b\n"
+             "a.close(); b.close(); assert not mx.get_models(), list(mx.get_models())\n")
+    unusable = 0
     for j, (c, r) in enumerate(zip(cases, res)):
+        if r.get("dirty") or r.get("probe_failed"):
+            unusable += 1
+            if unusable <= 2:
+                out.p_failures.append({"case": {"ops": "driver preamble"}, "script": PROBE,
+                                       "detail": ("after closing every registered model the registry still holds %r" % r["dirty"])
+                                       if r.get("dirty") else
+                                       ("new_model() / new_model('Zq') twice did not give Model<n> / Zq_BAK<n>: %s" % r["probe_failed"])})
+            cases[j] = c = dict(c, ops=[])
+            r["obs"] = []
         if r["skew"]:
             raise fw.Broken("driver could not set the namer counters (case %d: wanted %d/%d got %d/%d)"
                             % (j, c["cm"], c["cb"], r["cm"], r["cb"]))
